@@ -40,6 +40,8 @@ def run_script(case):
     holds = {}            # customer reference -> Event
     entered = {}          # customer reference -> Event
     polled_seq = [0]
+    trace = []            # [order name, event of Model/Betdaq.v] in the order the real handlers process them (one execution worker + the main thread)
+    refs = {}             # customer reference -> order name
 
     def bump(b):
         seq[0] += 1; b["sequence_number"] = seq[0]
@@ -58,6 +60,9 @@ def run_script(case):
                 entered[ref].set()
             if ref in holds:
                 holds[ref].wait(10)
+        for o in order_list:
+            if o["PunterReferenceNumber"] in refs:
+                trace.append([refs[o["PunterReferenceNumber"]], "(BReceipt true)"])
         return receipts
 
     def update_orders(order_list):
@@ -69,6 +74,8 @@ def run_script(case):
                 reports.append({"order_id": o["BetId"], "return_code": 0})
             else:
                 reports.append({"order_id": o["BetId"], "return_code": 22})
+            if b["customer_reference"] in refs:
+                trace.append([refs[b["customer_reference"]], "(BUpdateAnswer %s)" % ("true" if reports[-1]["return_code"] else "false")])
         return reports
 
     def cancel_orders(order_ids):
@@ -82,6 +89,8 @@ def run_script(case):
                 # nothing left to cancel (matched / cancelled meanwhile): assumed to be reported with nothing cancelled (the benign reading of the API;
                 # an exchange that OMITS such an order from its answer would send flumine down its "not returned -> executable" path)
                 reports.append({"order_id": oid, "cancelled_forside_stake": 0.0})
+            if b["customer_reference"] in refs:
+                trace.append([refs[b["customer_reference"]], "(BCancelAnswer true)"])
         return reports
 
     bc = mock.Mock(); bc.username = "betdaq-user"; bc.lightweight = False
@@ -96,6 +105,17 @@ def run_script(case):
     market = fw._add_market(MARKET_ID, market_book)
     names = {}
     out = []
+    # a call that gives no response (an exception inside the helper, e.g. nothing left to send): the handlers take their "reset" branch
+    _orig_helper = fw.betdaq_execution._execution_helper
+    def _helper(trading_function, order_package):
+        r = _orig_helper(trading_function, order_package)
+        if not r:
+            kind = {"place": "BPlaceFailed", "update": "BUpdateFailed", "cancel": "BCancelFailed"}.get(getattr(trading_function, "__name__", ""), None)
+            for o_ in order_package:
+                if kind and int(o_.id) in refs:
+                    trace.append([refs[int(o_.id)], kind])
+        return r
+    fw.betdaq_execution._execution_helper = _helper
 
     def blocked():
         return any(not ev.is_set() for ev in holds.values())
@@ -132,11 +152,14 @@ def run_script(case):
                 o = tr.create_betdaq_order(side, BetdaqLimitOrder(price=price / 100, size=size / 100, betdaq_runner_id=sel, runner_reset_count=0, withdrawal_sequence_number=0))
                 names[name] = o
                 ref = int(o.id)
+                refs[ref] = name
                 entered[ref] = threading.Event()
                 if hold:
                     holds[ref] = threading.Event()
                 ok = market.place_order(o)
                 res = {"accepted": bool(ok)}
+                if not ok:
+                    del refs[ref]
                 if ok:
                     if not blocked() or hold:
                         entered[ref].wait(5) if not any(not ev.is_set() for r_, ev in holds.items() if r_ != ref) else None
@@ -162,25 +185,36 @@ def run_script(case):
                 rows = [dict(b) for b in bets.values() if b["sequence_number"] > polled_seq[0]]
                 polled_seq[0] = seq[0]
                 res = {"rows": len(rows)}
+                for r_ in rows:
+                    o_ = names.get(refs.get(r_["customer_reference"]))
+                    if o_ is not None:
+                        old_seq = (o_.current_order or {}).get("sequence_number") if isinstance(o_.current_order, dict) else None
+                        trace.append([refs[r_["customer_reference"]], "(BPoll %s %s)" % ("false" if r_["status"] in ("Unmatched", "Suspended") else "true", "true" if old_seq != r_["sequence_number"] else "false")])
                 if rows:
                     fw._process_current_orders(CurrentOrdersEvent(rows, exchange=ExchangeType.BETDAQ))
             elif st[0] == "update":
                 o = names.get(st[1])
                 if o is not None and o.bet_id and o.status is not None and o.status.value == "Executable":
                     n0 = len(o.responses.update_responses)
+                    ev_ = [st[1], "BReqUpdate"]; trace.append(ev_)
                     try:
                         res = {"accepted": bool(market.update_order(o, new_price=st[2] / 100))}
                     except Exception as e:
                         res = {"exc": type(e).__name__}
+                    if not res.get("accepted"):
+                        ev_[1] = None
                     if res.get("accepted"):
                         pool_idle()
             elif st[0] == "cancel":
                 o = names.get(st[1])
                 if o is not None and o.bet_id and o.status is not None and o.status.value == "Executable":
+                    ev_ = [st[1], "BReqCancel"]; trace.append(ev_)
                     try:
                         res = {"accepted": bool(market.cancel_order(o))}
                     except Exception as e:
                         res = {"exc": type(e).__name__}
+                    if not res.get("accepted"):
+                        ev_[1] = None
                     if res.get("accepted"):
                         pool_idle()
             out.append(dump(res))
@@ -192,7 +226,7 @@ def run_script(case):
                 ex_.shutdown()
             except Exception:
                 pass
-    return out
+    return out, [t for t in trace if t[1] is not None]
 
 
 def main():
@@ -200,10 +234,11 @@ def main():
     res = []
     for c in j["cases"]:
         try:
-            res.append({"steps": run_script(c), "error": None})
+            steps_, trace_ = run_script(c)
+            res.append({"steps": steps_, "trace": trace_, "error": None})
         except Exception as e:
             import traceback
-            res.append({"steps": [], "error": type(e).__name__ + ":" + str(e)[:200] + traceback.format_exc()[-600:]})
+            res.append({"steps": [], "trace": [], "error": type(e).__name__ + ":" + str(e)[:200] + traceback.format_exc()[-600:]})
     print(json.dumps({"out": res}))
 
 
